@@ -788,6 +788,40 @@ def ident_stream(h, res, rng, tier, builtin_names, model_ok=True):
                           {"kind": "impl-law", "law": "bind then reference", "name": n, "program": src,
                            "observed": o, "expected": exp, "failing_templates": len(fl),
                            "rerun": "./check C10 --replay <this file>"})
+    # OPERATOR-WORD names (round 7): via / into / where are operators but NOT reserved words, so they are plain names
+    # by the property's wording; every renaming template must work for them.  The statement-start templates put the
+    # name first in a statement that follows another one: the grammar admits a line break before a binary operator, so
+    # for these three names the line is read as a continuation of the previous statement (open finding
+    # C10-operator-word-name); for every other name the templates must behave like the reference name.
+    START = ["%s = 5\nhy9 = 3\n%s -1", "%s = [5, 6]\nhy9 = [3]\n%s [0]", "%s = 5\nhy9 = [3]\n%s (x9 => x9)",
+             "%s = 5\nhy9 = 3\n%s - 1", "%s = 5\nhy9 = 3\n%s", "%s = 5\nhy9 = 3\n%s + 1"]
+    opw = ["via", "into", "where"]
+    ctl = [n for n in names if n not in fails][:12] + ["via_", "wherever", "intox", "viaduct"]
+    st_ref = [re.sub(r"@(-|[0-9a-f]+)", "", o).split(";ENV:")[0]
+              for o in c.harness_lines_resilient(h, "eval", [c.hexs(t.replace("%s", "zq9")) for t in REN + START])]
+    ow_src = [(n, k, t.replace("%s", n)) for n in opw + ctl for k, t in enumerate(REN + START)]
+    ow_out = c.harness_lines_resilient(h, "eval", [c.hexs(sx) for _, _, sx in ow_src])
+    ow_open = any(e.get("id") == "C10-operator-word-name" for e in c.open_known(PID))
+    ow_known, ow_viol, ow_fail_tpl = 0, 0, {}
+    for (n, k, sx), o in zip(ow_src, ow_out):
+        want = st_ref[k].replace(c.hexs("zq9"), c.hexs(n))
+        got = re.sub(r"@(-|[0-9a-f]+)", "", o).split(";ENV:")[0]
+        if got == want:
+            continue
+        if n in opw and k >= len(REN) and ow_open:
+            ow_known += 1
+            ow_fail_tpl[k - len(REN)] = ow_fail_tpl.get(k - len(REN), 0) + 1
+            continue
+        ow_viol += 1
+        if ow_viol <= 3:
+            res.violation("a plain name cannot be bound and then referenced (%s)" % n,
+                          {"kind": "impl-law", "law": "bind then reference (operator-word / statement-start family)",
+                           "name": n, "program": sx, "observed": got, "expected": want + "   (the same program over the name zq9)",
+                           "rerun": "./check C10 --replay <this file>"})
+    res.streams["SEARCH-operator-word-names"] = {"names": opw, "control_names": len(ctl), "templates": len(REN) + len(START),
+                                                 "statement_start_templates": len(START), "programs": len(ow_src),
+                                                 "differences_under_open_finding": ow_known,
+                                                 "by_statement_start_template": ow_fail_tpl, "violations": ow_viol}
     ok_known_class = sum(1 for n in names if ident_in_known_class(n) and n not in fails)
     res.streams["SEARCH-identifiers"] = {"names": len(names), "programs": len(lines) + len(ev_lines) + len(ren_src), "renaming_templates": len(REN),
                                          "names_failing": len(fails), "in_known_class": known,
